@@ -14,7 +14,7 @@ use serde_json::json;
 pub const PROP: PropDef = PropDef {
     id: "C05",
     parts,
-    rule: "2 (quick) / 3 (thorough) loop iterations, each triggered by {timers, scheduled request, on-demand request} (exhaustive), with per-iteration environment answers: check decision {Ok, OkUpdateDeferred} x 8 parameter combinations or {TooSoon, Throttled, Denied}; server {no update, update for 1 of 2 apps, transport failures then success}; install decision {ok, deferred, denied}; plan {ok, error}; install {installed, failed}; reboot needed {yes, no}; reboot-allowed sequence {yes; no then yes on the timer; no then yes on an on-demand request; no, no, yes; no, no to an on-demand request, yes on the timer} - bounded to 3 / 4 non-default answers per history; plus every invalid app set (empty id, version 0 / 0.0 / 0.0.0.0, at each position of 1-3 apps); invariants on the call log of policy, installer and HTTP; non-trivial = history contains a negative decision or an install",
+    rule: "2 (quick) / 3 (thorough) loop iterations, each triggered by {timers, scheduled request, on-demand request} (exhaustive), with per-iteration environment answers: check decision {Ok, OkUpdateDeferred} x 8 parameter combinations or {TooSoon, Throttled, Denied}; server {no update, update for 1 of 2 apps, update for both apps, transport failures then success}; install decision {ok, deferred, denied}; plan {ok, error}; install result per offered app {installed, failed, deferred}; reboot needed {yes, no}; reboot-allowed sequence {yes; no then yes on the timer; no then yes on an on-demand request; no, no, yes; no, no to an on-demand request, yes on the timer} - bounded to 3 / 4 non-default answers per history; plus every invalid app set (empty id, version 0 / 0.0 / 0.0.0.0, at each position of 1-3 apps); invariants on the call log of policy, installer and HTTP; non-trivial = history contains a negative decision or an install",
     assumptions: &["one-shot checks bypass the check decision by design; the consent clauses are checked on continuous operation", "pings during the reboot wait are not 'requests of that check' and are exempt from the parameter clause"],
 };
 
@@ -59,13 +59,17 @@ impl Director for D {
                     self.fail_first -= 1;
                     return HttpAns::Transport;
                 }
-                match w.choose("server", 3) {
+                match w.choose("server", 4) {
                     0 => HttpAns::Resp(RespSpec::ok(response_bytes(
                         &[AppDoc::new("app-A", Uc::NoUpdate), AppDoc::new("app-B", Uc::NoUpdate)],
                         &Daystart::Absent,
                     ))),
                     1 => HttpAns::Resp(RespSpec::ok(response_bytes(
                         &[AppDoc::new("app-A", Uc::NoUpdate), AppDoc::new("app-B", Uc::OkManifest("3.0.0.0".into()))],
+                        &Daystart::Absent,
+                    ))),
+                    2 => HttpAns::Resp(RespSpec::ok(response_bytes(
+                        &[AppDoc::new("app-A", Uc::OkManifest("2.0.0.0".into())), AppDoc::new("app-B", Uc::OkManifest("3.0.0.0".into()))],
                         &Daystart::Absent,
                     ))),
                     _ => {
@@ -88,10 +92,10 @@ impl Director for D {
         }
     }
     fn install(&mut self, w: &mut Inner, _p: &str, offered: usize) -> InstallScript {
-        let r = [AppRes::Installed, AppRes::Failed][w.choose("install", 2)];
+        let results = (0..offered).map(|_| [AppRes::Installed, AppRes::Failed, AppRes::Deferred][w.choose("install", 3)]).collect();
         InstallScript {
             progress: vec![],
-            results: vec![r; offered],
+            results,
             install_result: "r".into(),
         }
     }
@@ -418,7 +422,7 @@ fn parts(tier: Tier) -> Vec<PartDef> {
         PartDef::new(
             "consent-histories",
             Cfg::new("C05/consent-histories").dev(d).free(&["trigger"]),
-            json!({"iterations": tier.pick(2, 3), "triggers": ["timers", "scheduled request", "on-demand request"], "check_decisions": 19, "server": 3, "install_decisions": 3, "plan": 2, "install": 2, "reboot_needed": 2, "reboot_sequences": 5,
+            json!({"iterations": tier.pick(2, 3), "triggers": ["timers", "scheduled request", "on-demand request"], "check_decisions": 19, "server": 4, "install_decisions": 3, "plan": 2, "install_per_app": 3, "reboot_needed": 2, "reboot_sequences": 5,
                    "exploration": format!("triggers exhaustive; at most {d} non-default environment answers per history")}),
             move |ctx| run_hist(ctx, tier),
         ),
